@@ -14,6 +14,8 @@ RULE = ("random request histories (PUT new/same/re-serialised/changed/reverted/i
 def name_class(name):
     if any(ord(c) > 127 for c in name):
         return "nonascii-name"
+    if name in (".xandikos", ".git", ".gitignore", ".xandikos.tmp"):
+        return "reserved-name"
     if name.startswith("."):
         return "dot-name"
     if any(c in name for c in "%+&=@,'()~!$[] "):
@@ -59,6 +61,14 @@ class C01Monitor(histrun.Monitor):
                 self.viol(w, f"{wh}/listing/ghost-member/{name_class(nm)}", f"{p} lists {nm!r} which the model does not have ({after}, last op {lastop}); model has {sorted(model_names)!r}")
             for nm in sorted(model_names - set(listed)):
                 self.viol(w, f"{wh}/listing/missing-member/{name_class(nm)}", f"{p} does not list live member {nm!r} ({after}, last op {lastop}); listed {sorted(listed)!r}")
+            rt = o.get("rt") or []
+            is_cal = "{urn:ietf:params:xml:ns:caldav}calendar" in rt
+            is_ab = "{urn:ietf:params:xml:ns:carddav}addressbook" in rt
+            res.count("collection_type_checks")
+            # a collection made by plain MKCOL has no stored type: xandikos guesses one from its members by
+            # design, so only explicitly typed collections are judged
+            if col.kind in ("calendar", "addressbook") and ((col.kind == "calendar") != is_cal or (col.kind == "addressbook") != is_ab):
+                self.viol(w, f"{wh}/collection-type-changed/{lastop}", f"{p} was created as {col.kind} but PROPFIND now reports resourcetype {rt!r} ({after}, last op {lastop})")
             exp_sub = sorted(x[len(p):] for x in col.subcols)
             got_sub = sorted(o["subcols"])
             if exp_sub != got_sub:
